@@ -24,9 +24,19 @@
 (*               named predicate Dev_AddDuringGather: the trace specification *)
 (*               attaches it to a failing C07.LoopAlive record, so the old    *)
 (*               behaviour is recognised if it ever returns.)                 *)
+(*   SourceStops(s) / SinkRaises(s)                                           *)
+(*               series s breaks: its source ends (the receiving task is     *)
+(*               done, _StreamingHelper.resample raises SourceStoppedError    *)
+(*               before the sink is called) or its sink raises from now on.   *)
+(*               Either way s is handed nothing any more, the tick's gather   *)
+(*               collects the exception, and Finish - AFTER windowEnd += P -  *)
+(*               raises ResamplingError naming s: resample() ends (`raised`)  *)
+(*   Recover     what ComponentMetricsResamplingActor._run does: catch the    *)
+(*               ResamplingError, remove_timeseries() for the sources it      *)
+(*               names, call resample() again                                 *)
 (* When the loop runs it runs until nothing is ready, so the states `fired`,  *)
-(* `done0` (sinks without latency) and `due` (a tick already missed when the  *)
-(* gather returns) are transient: no time passes and no series is added in    *)
+(* `done0` (sinks without latency), `due` (a tick already missed when the     *)
+(* gather returns) and `raised` (the client recovers at once) are transient: no time passes and no series is added in    *)
 (* them.  Quiescent phases are `sleep` (waiting for the timer, possibly       *)
 (* overdue = late wake-up) and `busy` (waiting for slow sinks, possibly       *)
 (* overdue).                                                                  *)
@@ -37,6 +47,8 @@ CONSTANTS P,          \* resampling period in ticks
           AlignSet,   \* align_to values (absolute ticks, before and after creation) and None
           NS,         \* series are 1..NS; series 1 is added together with the resampler
           LatSet,     \* sink latencies (ticks) TLC may choose for a tick
+          FailSet,    \* series that may break (series 1 is the observer and never does)
+          MaxFail,    \* how many series may break in one behaviour
           MaxLate,    \* bound on how overdue a timer / a finished gather may become
           Horizon     \* the model stops the clock at created + Horizon
 
@@ -47,11 +59,15 @@ VARIABLES now, created, alignTo, windowEnd, nextTick, phase, busyUntil,
           drift,      \* what the timer reported for the current tick (only logged by the code)
           gathered,   \* number of series in the pending gather (None when there is none)
           joined,     \* series -> number of ticks already made when it was added, None = not added
+          broken,     \* series -> "no" | "source" (its source has stopped) | "sink" (its sink raises)
+          left,       \* series -> number of ticks made when it broke (it is handed nothing later), None
+          removed,    \* series the client has removed after a ResamplingError
+          failed,     \* series whose resample() raised in the pending / last gather
           ticks,      \* the timeline: window ends handed out so far, in order
           h           \* history of actions, hidden by VIEW
 
-vars == <<now, created, alignTo, windowEnd, nextTick, phase, busyUntil, drift, gathered, joined, ticks, h>>
-View == <<now, created, alignTo, windowEnd, nextTick, phase, busyUntil, drift, gathered, joined, ticks>>
+vars == <<now, created, alignTo, windowEnd, nextTick, phase, busyUntil, drift, gathered, joined, broken, left, removed, failed, ticks, h>>
+View == <<now, created, alignTo, windowEnd, nextTick, phase, busyUntil, drift, gathered, joined, broken, left, removed, failed, ticks>>
 
 EmitOn == "OUT_FILE" \in DOMAIN IOEnv
 Emit(v) == IF EmitOn THEN CSVWrite("%1$s", <<ToJson(v)>>, IOEnv.OUT_FILE) ELSE TRUE
@@ -59,9 +75,11 @@ Emit(v) == IF EmitOn THEN CSVWrite("%1$s", <<ToJson(v)>>, IOEnv.OUT_FILE) ELSE T
 Quiescent(ph) == ph \in {"sleep", "busy"}
 
 \* what series s has been sent so far
-EmittedOf(tk, jn, s) == IF jn[s] = None THEN <<>> ELSE SubSeq(tk, jn[s] + 1, Len(tk))
-emitted == [s \in Series |-> EmittedOf(ticks, joined, s)]
-NSeries == Cardinality({s \in Series : joined[s] # None})
+EmittedOf(tk, jn, lf, s) ==
+    IF jn[s] = None THEN <<>> ELSE SubSeq(tk, jn[s] + 1, IF lf[s] = None THEN Len(tk) ELSE lf[s])
+emitted == [s \in Series |-> EmittedOf(ticks, joined, left, s)]
+Present == {s \in Series : joined[s] # None /\ s \notin removed}     \* keys of _resamplers
+NSeries == Cardinality(Present)
 
 ----------------------------------------------------------------------------
 (* _calculate_window_end: <<window_end, start_delay>> for creation instant c *)
@@ -75,6 +93,7 @@ Init ==
     /\ now = 0 /\ created = None /\ alignTo = None /\ windowEnd = None /\ nextTick = None
     /\ phase = "none" /\ busyUntil = None /\ drift = None /\ gathered = None
     /\ joined = [s \in Series |-> None] /\ ticks = <<>> /\ h = <<>>
+    /\ broken = [s \in Series |-> "no"] /\ left = [s \in Series |-> None] /\ removed = {} /\ failed = {}
 
 Create(c, al) ==
     /\ phase = "none"
@@ -84,13 +103,13 @@ Create(c, al) ==
        /\ nextTick' = c + P + we[2]              \* loop.time() + period + start_delay
     /\ phase' = "sleep"
     /\ joined' = [joined EXCEPT ![1] = 0]
-    /\ UNCHANGED <<busyUntil, drift, gathered, ticks>>
+    /\ UNCHANGED <<busyUntil, drift, gathered, broken, left, removed, failed, ticks>>
     /\ h' = <<[a |-> "create", c |-> c, align |-> al]>>
 
 AddSeries(s) ==
     /\ Quiescent(phase) /\ joined[s] = None
     /\ joined' = [joined EXCEPT ![s] = Len(ticks)]
-    /\ UNCHANGED <<now, created, alignTo, windowEnd, nextTick, phase, busyUntil, drift, gathered, ticks>>
+    /\ UNCHANGED <<now, created, alignTo, windowEnd, nextTick, phase, busyUntil, drift, gathered, broken, left, removed, failed, ticks>>
     /\ h' = Append(h, [a |-> "add", s |-> s])
 
 \* how overdue the thing the loop is waiting for would be after one more tick
@@ -101,7 +120,7 @@ TimePass ==
     /\ now < created + Horizon
     /\ Overdue(now + 1) <= MaxLate
     /\ now' = now + 1
-    /\ UNCHANGED <<created, alignTo, windowEnd, nextTick, phase, busyUntil, drift, gathered, joined, ticks>>
+    /\ UNCHANGED <<created, alignTo, windowEnd, nextTick, phase, busyUntil, drift, gathered, joined, broken, left, removed, failed, ticks>>
     /\ h' = Append(h, [a |-> "pass"])
 
 TimerFire ==
@@ -109,7 +128,7 @@ TimerFire ==
     /\ drift' = now - nextTick
     /\ nextTick' = nextTick + P                  \* TriggerAllMissed
     /\ phase' = "fired"
-    /\ UNCHANGED <<now, created, alignTo, windowEnd, busyUntil, gathered, joined, ticks>>
+    /\ UNCHANGED <<now, created, alignTo, windowEnd, busyUntil, gathered, joined, broken, left, removed, failed, ticks>>
     /\ h' = Append(h, [a |-> "fire", drift |-> now - nextTick, catchup |-> (phase = "due")])
 
 Resample(lat) ==
@@ -117,8 +136,9 @@ Resample(lat) ==
     /\ ticks' = Append(ticks, windowEnd)         \* every series present gets Sample(windowEnd, ..)
     /\ busyUntil' = now + lat
     /\ gathered' = NSeries
+    /\ failed' = {s \in Present : broken[s] # "no"}   \* their _StreamingHelper.resample raises
     /\ phase' = IF lat = 0 THEN "done0" ELSE "busy"
-    /\ UNCHANGED <<now, created, alignTo, windowEnd, nextTick, drift, joined>>
+    /\ UNCHANGED <<now, created, alignTo, windowEnd, nextTick, drift, joined, broken, left, removed>>
     /\ h' = Append(h, [a |-> "resample", lat |-> lat])
 
 \* cause predicate of the repaired defect: _resamplers grew while the gather was pending
@@ -126,11 +146,33 @@ Dev_AddDuringGather == gathered # None /\ NSeries > gathered
 
 Finish ==
     /\ phase \in {"busy", "done0"} /\ now >= busyUntil
-    /\ windowEnd' = windowEnd + P
-    /\ phase' = IF now >= nextTick THEN "due" ELSE "sleep"
+    /\ windowEnd' = windowEnd + P                \* before the results are inspected
+    /\ phase' = IF failed # {} THEN "raised"     \* raise ResamplingError(exceptions): resample() ends
+                ELSE IF now >= nextTick THEN "due" ELSE "sleep"
     /\ gathered' = None
-    /\ UNCHANGED <<now, created, alignTo, nextTick, busyUntil, drift, joined, ticks>>
-    /\ h' = Append(h, [a |-> "finish", grown |-> Dev_AddDuringGather])
+    /\ UNCHANGED <<now, created, alignTo, nextTick, busyUntil, drift, joined, broken, left, removed, failed, ticks>>
+    /\ h' = Append(h, [a |-> "finish", grown |-> Dev_AddDuringGather, raised |-> (failed # {})])
+
+\* nothing the loop waits for is overdue (so running it now does nothing)
+OnTime == IF phase = "sleep" THEN now < nextTick ELSE now < busyUntil
+
+Break(s, how) ==
+    /\ Quiescent(phase) /\ OnTime
+    /\ s \in FailSet \cap Present /\ broken[s] = "no"
+    /\ Cardinality({t \in Series : broken[t] # "no"}) < MaxFail
+    /\ broken' = [broken EXCEPT ![s] = how]
+    /\ left' = [left EXCEPT ![s] = Len(ticks)]
+    /\ UNCHANGED <<now, created, alignTo, windowEnd, nextTick, phase, busyUntil, drift, gathered, joined, removed, failed, ticks>>
+SourceStops(s) == Break(s, "source") /\ h' = Append(h, [a |-> "stop", s |-> s])
+SinkRaises(s) == Break(s, "sink") /\ h' = Append(h, [a |-> "sinkfail", s |-> s])
+
+Recover ==
+    /\ phase = "raised"
+    /\ removed' = removed \cup failed             \* remove_timeseries(source) for every source named
+    /\ failed' = {}
+    /\ phase' = IF now >= nextTick THEN "due" ELSE "sleep"   \* resample() again
+    /\ UNCHANGED <<now, created, alignTo, windowEnd, nextTick, busyUntil, drift, gathered, joined, broken, left, ticks>>
+    /\ h' = Append(h, [a |-> "recover"])
 
 \* a history is handed to the harness whenever it ends in a quiescent state
 EmitRule == Quiescent(phase') => Emit(h')
@@ -141,8 +183,10 @@ PassStep == TimePass /\ EmitRule
 FireStep == TimerFire /\ EmitRule
 ResampleStep == (\E lat \in LatSet : Resample(lat)) /\ EmitRule
 FinishStep == Finish /\ EmitRule
+BreakStep == (\E s \in Series : SourceStops(s) \/ SinkRaises(s)) /\ EmitRule
+RecoverStep == Recover /\ EmitRule
 
-Next == CreateStep \/ AddStep \/ PassStep \/ FireStep \/ ResampleStep \/ FinishStep
+Next == CreateStep \/ AddStep \/ PassStep \/ FireStep \/ ResampleStep \/ FinishStep \/ BreakStep \/ RecoverStep
 
 Spec == Init /\ [][Next]_vars
 
@@ -162,8 +206,10 @@ ConsecutiveSeq(sq) == \A i \in 1..(Len(sq) - 1) : sq[i + 1] = sq[i] + P
 FirstTickWindowSeq(sq, c) == Len(sq) > 0 => (c <= sq[1] /\ sq[1] <= c + 2 * P)
 
 IsSuffix(a, b) == Len(a) <= Len(b) /\ a = SubSeq(b, Len(b) - Len(a) + 1, Len(b))
-\* series resampled together receive the same timestamps
-SameForAll(em) == \A s, t \in DOMAIN em : IsSuffix(em[s], em[t]) \/ IsSuffix(em[t], em[s])
+IsSegment(a, b) == \E i \in 0..(Len(b) - Len(a)) : a = SubSeq(b, i + 1, i + Len(a))
+\* series resampled together receive the same timestamps: what any series is handed is a
+\* contiguous piece of what series 1 (present from the start, never breaks) is handed
+SameForAll(em) == \A s \in DOMAIN em : IsSegment(em[s], em[1])
 
 \* no tick is withheld: once the loop has caught up (it waits for a timer that is not yet due)
 \* every grid point from the first tick up to `now` has been handed out, and the first tick is
@@ -173,11 +219,13 @@ CaughtUpSeq(sq, c, t) == IF Len(sq) = 0 THEN t < c + 2 * P ELSE sq[Len(sq)] + P 
 Aligned == phase # "none" => \A s \in Series : AlignedSeq(emitted[s], AlignRef(alignTo, created))
 Consecutive == \A s \in Series : ConsecutiveSeq(emitted[s])
 FirstTickWindow == phase # "none" => FirstTickWindowSeq(ticks, created) /\ FirstTickWindowSeq(emitted[1], created)
-SameForAllSeries == SameForAll(emitted)
+SameForAllSeries == /\ SameForAll(emitted)
+                    /\ \A s \in Series : broken[s] = "no" => IsSuffix(emitted[s], emitted[1])
 CaughtUp == (phase = "sleep" /\ now < nextTick) => CaughtUpSeq(ticks, created, now)
 
-\* C07.LoopAlive (resample() keeps running, otherwise every later tick is skipped) has no
-\* counterpart in the model: no action of the design ends the loop.  It is a clause of the
+\* C07.LoopAlive (resample() keeps running, otherwise every later tick is skipped): the only
+\* action of the design that ends the loop is the documented ResamplingError of Finish (`raised`),
+\* which the client answers with Recover at once.  It is a clause of the
 \* trace specification, evaluated on the observed task.
 
 (* design-level invariants that explain WHY the clauses hold *)
@@ -185,11 +233,11 @@ CaughtUp == (phase = "sleep" /\ now < nextTick) => CaughtUpSeq(ticks, created, n
 \* while a tick is being processed the timer is exactly one period ahead
 TimerTracksWindow ==
     phase # "none" =>
-       IF phase \in {"sleep", "due"} THEN nextTick = windowEnd ELSE nextTick = windowEnd + P
+       IF phase \in {"sleep", "due", "raised"} THEN nextTick = windowEnd ELSE nextTick = windowEnd + P
 \* a tick is never handed out before its window has ended
 NeverEarly == phase = "fired" => windowEnd <= now
 TypeOK ==
-    /\ phase \in {"none", "sleep", "fired", "busy", "done0", "due"}
+    /\ phase \in {"none", "sleep", "fired", "busy", "done0", "due", "raised"}
     /\ \A s \in Series : joined[s] = None \/ joined[s] \in 0..Len(ticks)
 
 =============================================================================
